@@ -23,3 +23,14 @@ Theorem C08_apiose_refuted :
   In (IRing "API") library_issues /\ In (IDup "p:API" "f:API") library_issues.
 Proof. vm_compute. tauto. Qed.
 Print Assumptions C08_apiose_refuted.
+
+(* "different codes are different molecules" rests on the isomorphism search being exhaustive: it lists exactly the
+   constitution isomorphisms, so an empty answer means that none exists *)
+From Coq Require Import Arith.
+From GV Require Import Proofs.IsoSound.
+Theorem C08_isomorphism_search_is_exact :
+  forall m1 m2 phi,
+    In phi (all_isos m1 m2) <->
+    (constitution_iso m1 m2 phi /\ length (m_bonds m1) = length (m_bonds m2)).
+Proof. exact all_isos_spec. Qed.
+Print Assumptions C08_isomorphism_search_is_exact.
